@@ -469,6 +469,26 @@ impl Prop for C16Prop {
         // arguments -- let/assign-bound names and the REPL's free variables -- are taken as
         // quoted constants.  Excused only when the mechanism is visible in the case itself.
         let id = "evaluator-com-takes-unbound-names-as-constants";
+        // whatever the face: a result that changes with the fresh-name counter embeds (or was
+        // computed from) a renamed binding name that com took as a constant
+        if let (Some(defs), Some(e)) = (v.case.get("definitions").and_then(|d| d.as_str()), v.case.get("expression").and_then(|d| d.as_str())) {
+            let at = |n: usize| {
+                chialisp::compiler::gensym::ARGNAME_CTR.store(n, std::sync::atomic::Ordering::SeqCst);
+                let mut r = new_repl();
+                for d in defs.lines() {
+                    repl_eval(&mut r, d);
+                }
+                match repl_eval(&mut r, e) {
+                    Res::Constant(c) => Some(format!("C{}", c.show())),
+                    Res::Residual(t) => Some(format!("R{t}")),
+                    _ => None,
+                }
+            };
+            let (a1, a2, b1) = (at(5000), at(5000), at(777_777));
+            if a1.is_some() && a1 == a2 && b1.is_some() && a1 != b1 {
+                return Some(id);
+            }
+        }
         match v.sig.as_str() {
             "closed:constant-differs-from-compiled-program" | "open:constant-residual-differs" => {
                 // the constant contains, or was computed from, a *name*: a consistent renaming of
